@@ -40,6 +40,18 @@ class Obligation:
 
 FEAS_TIMEOUT_MS = 5000
 STR_FEAS_TIMEOUT_MS = 400
+QUANT_FEAS_TIMEOUT_MS = 1000
+
+
+def _has_quant(t, depth=0) -> bool:
+    try:
+        if z3.is_quantifier(t):
+            return True
+    except Exception:  # noqa: BLE001
+        return False
+    if depth > 4 or not z3.is_expr(t):
+        return False
+    return any(_has_quant(c, depth + 1) for c in t.children())
 
 
 def _has_strings(t, depth=0) -> bool:
@@ -92,10 +104,12 @@ class State:
         self.prefix = list(prefix)
         self.taken: list[int] = []
         self.explorer = explorer
-        self.solver = z3.Solver()
-        self.solver.set("timeout", FEAS_TIMEOUT_MS)
-        self.solver.set("random_seed", 0)
         self.pc: list = []
+        self.tainted = False
+        self.last_check = None
+        self.renewals = 0
+        self.solver = None
+        self.renew_solver()
         self.heap: Heap = Heap()
         self.next_ref = 1
         self.ghost: dict[str, object] = {}
@@ -110,7 +124,22 @@ class State:
         self.trace_base = 0
         self.solver_time = 0.0
         self.uses_strings = False
+        self.has_quant = False
+        self.unknown_streak = 0
+        self.skipped = 0
         self.events: list[str] = []
+
+    def renew_solver(self):
+        """a new solver over the same path condition.  An incremental z3 solver that has hit a timeout was seen to answer
+        a spurious `unsat` afterwards (the same assertions are `sat` for fresh z3 5.1, z3 4.8 and cvc5 - DESIGN.md 15),
+        so a solver that has returned `unknown` once is never asked again."""
+        self.solver = z3.Solver()
+        self.solver.set("timeout", FEAS_TIMEOUT_MS)
+        self.solver.set("random_seed", 0)
+        for t in self.pc:
+            self.solver.add(t)
+        self.tainted = False
+        self.renewals += 1
 
     # -------------------------------------------------------------- names / refs
     def fresh_name(self, base: str) -> str:
@@ -133,6 +162,8 @@ class State:
         if z3.is_true(term):
             return
         self.pc.append(term)
+        if not self.has_quant and _has_quant(term):
+            self.has_quant = True
         self.solver.add(term)
         if z3.is_false(term):
             raise PathInfeasible()
@@ -140,16 +171,55 @@ class State:
     def _check(self, extra) -> str:
         t0 = time.time()
         # string constraints: feasibility is only an optimisation (unknown = feasible), keep it cheap
+        budget = FEAS_TIMEOUT_MS
         if self.uses_strings or _has_strings(extra):
             self.uses_strings = True
-            self.solver.set("timeout", STR_FEAS_TIMEOUT_MS)
+            budget = STR_FEAS_TIMEOUT_MS
+        elif self.has_quant:
+            # quantified path condition (havoc under a rely, loop invariants): feasibility is only an optimisation
+            budget = QUANT_FEAS_TIMEOUT_MS
+        if self.has_quant and self.unknown_streak >= 2:
+            # the solver keeps giving up on feasibility questions in this quantified state: stop asking (every path is
+            # kept - an over-approximation), try again only now and then
+            self.skipped += 1
+            if self.skipped % 8:
+                return "unknown"
+        if self.tainted:
+            self.renew_solver()
         self.solver.push()
         self.solver.add(extra)
+        self.solver.set("timeout", budget)
+        t1 = time.time()
         r = self.solver.check()
+        self.last_check = (str(r), round(time.time() - t1, 3), budget)
+        if r == z3.unsat and (self.has_quant or _has_quant(extra)):
+            from .smt import confirm_unsat
+            if confirm_unsat(self.solver, None, max(budget, 2000)) != "unsat":
+                r = z3.unknown
+        if r == z3.unknown:
+            self.tainted = True
+        self.unknown_streak = self.unknown_streak + 1 if r == z3.unknown else 0
+        if r == z3.unsat:
+            from .smt import second_opinion, SolverDisagreement
+            try:
+                second_opinion(self.solver, "path feasibility")
+            except SolverDisagreement:
+                self.solver.pop()
+                raise
         self.solver.pop()
         self.solver.set("timeout", FEAS_TIMEOUT_MS)
         self.solver_time += time.time() - t0
         return str(r)
+
+    def was_feasible_before(self, n_pc: int) -> str:
+        """'sat' | 'unsat' | 'unknown' for the first n_pc conjuncts of the path condition, on a fresh solver with a
+        generous budget.  Used when assumptions just added made the path unsatisfiable: if the path was ALREADY
+        infeasible (a quick feasibility check had timed out earlier) the new assumptions are not to blame."""
+        s = z3.Solver()
+        s.set("timeout", 20000)
+        for t in self.pc[:n_pc]:
+            s.add(t)
+        return str(s.check())
 
     def feasible(self, term) -> bool:
         r = self._check(term)
